@@ -66,6 +66,19 @@ func genC09(t *rapid.T) c09Case {
 	c.Cfg.UseGitignore = rapid.Bool().Draw(t, "use_gitignore")
 	c.Cfg.ReadSymlinks = rapid.Bool().Draw(t, "read_symlinks")
 	c.PairSeed = rapid.Uint32().Draw(t, "pair_seed")
+	// a third of the cases list the paths to extract: faults then also hit the stat of a
+	// listed path, and the paths listed after it must be handled as in a fault-free scan
+	if rapid.IntRange(0, 2).Draw(t, "use_paths") == 0 && len(c.Tree.Nodes) > 0 {
+		n := rapid.IntRange(2, 4).Draw(t, "n_paths")
+		for i := 0; i < n; i++ {
+			if rapid.IntRange(0, 7).Draw(t, "missing_path") == 0 {
+				c.Cfg.PathsToExtract = append(c.Cfg.PathsToExtract, "no/such/path")
+				continue
+			}
+			c.Cfg.PathsToExtract = append(c.Cfg.PathsToExtract, c.Tree.Nodes[rapid.IntRange(0, len(c.Tree.Nodes)-1).Draw(t, "path_node")].Path)
+		}
+		c.Cfg.IgnoreSubDirs = rapid.IntRange(0, 3).Draw(t, "ignore_subdirs") == 0
+	}
 	return c
 }
 
@@ -253,6 +266,14 @@ func (c c09Case) decide(r c09Run, clean scanOut) (reached bool, othersExpected b
 		for _, g := range hitFaults {
 			if g.Site == "stat" && g.Path == f.Path {
 				statOnSame = true
+			}
+			// with listed paths one file can be reached by several walks: when another fault
+			// hit took a whole region containing the file away from one of them, a missing call
+			// cannot be charged to this fault
+			if g != f {
+				if reg, trav, gi := faultRegion(c.Tree, g); (trav || gi || g.Site == "stat") && inRegion(f.Path, reg) {
+					statOnSame = true
+				}
 			}
 		}
 		for _, e := range c.Exts {
@@ -477,6 +498,9 @@ func propC09(c c09Case) (ev.Outcome, error) {
 		}
 	}
 	o.Classes = append(o.Classes, "scenario")
+	if len(c.Cfg.PathsToExtract) > 0 {
+		o.Classes = append(o.Classes, "scenario_with_listed_paths")
+	}
 	return o, nil
 }
 
